@@ -333,6 +333,54 @@ func c13OffsetDealer(r *pvRun, sc *pvScen, rng *kc.Rng) {
 	}
 }
 
+// c13ObjectHistory: verification is a function of the object's present contents and of the arguments of this
+// call: a share object that verified once is altered in place, or checked under another trustee's key, or handed
+// to another trustee for decryption — and must then be refused.
+func c13ObjectHistory(r *pvRun, sc *pvScen, rng *kc.Rng) {
+	h := sc.h
+	if len(sc.enc) < 1 {
+		return
+	}
+	i := rng.Intn(sc.n)
+	sH := sc.pub.Eval(uint32(i)).V
+	c := sc.enc[i].P.C
+	obj := &pvss.PubVerShare{S: share.PubShare{I: sc.enc[i].S.I, V: sc.enc[i].S.V.Clone()},
+		P: dleq.Proof{C: sc.enc[i].P.C.Clone(), R: sc.enc[i].P.R.Clone(), VG: sc.enc[i].P.VG.Clone(), VH: sc.enc[i].P.VH.Clone()}}
+	fail := func(key, what string) {
+		r.c.Violation("C13:object-history:"+key, fmt.Sprintf("%s: n=%d t=%d share %d: %s", h.name, sc.n, sc.t, i, what), map[string]any{"group": h.name, "n": sc.n, "t": sc.t, "share": i})
+	}
+	pvGuard(r.c, "VerifyEncShare/object-history", func() {
+		if err := pvss.VerifyEncShare(sc.su, sc.H, sc.X[i], sH, c, obj); err != nil {
+			return // the honest share must verify: reported elsewhere
+		}
+		r.c.Eval(1)
+		r.c.CountKind(h.name + ":object-history")
+		// under another trustee's key
+		if sc.n > 1 {
+			j := (i + 1 + rng.Intn(sc.n-1)) % sc.n
+			if pvss.VerifyEncShare(sc.su, sc.H, sc.X[j], sH, c, obj) == nil {
+				fail("other-key", fmt.Sprintf("an encrypted share that verified for trustee %d also verifies under the key of trustee %d", i, j))
+			}
+			if _, err := pvss.DecShare(sc.su, sc.H, sc.X[j], sH, h.sc(sc.xs[j]), c, obj); err == nil {
+				fail("other-trustee-decrypts", fmt.Sprintf("trustee %d 'decrypts' the share of trustee %d (its consistency check passed)", j, i))
+			}
+		}
+		// altered in place after it verified
+		obj.P.R.Add(obj.P.R, h.g.Scalar().One())
+		if pvss.VerifyEncShare(sc.su, sc.H, sc.X[i], sH, c, obj) == nil {
+			fail("altered-response", "an encrypted share whose proof response was altered in place after a successful check still verifies")
+		}
+		obj.P.R.Sub(obj.P.R, h.g.Scalar().One())
+		obj.S.V.Add(obj.S.V, h.g.Point().Base())
+		if pvss.VerifyEncShare(sc.su, sc.H, sc.X[i], sH, c, obj) == nil {
+			fail("altered-share", "an encrypted share whose value was altered in place after a successful check still verifies")
+		}
+		if K, E, err := pvss.VerifyEncShareBatch(sc.su, sc.H, sc.X[i:i+1], []kyber.Point{sH}, sc.pub, []*pvss.PubVerShare{obj}); err == nil && (len(K) != 0 || len(E) != 0) && sc.n == 1 {
+			fail("altered-share-batch", "the batch keeps an encrypted share altered in place after a successful check")
+		}
+	})
+}
+
 // c13WeakFS: a trustee that knows its key but wants a WRONG decrypted share accepted. The decryption proof is a
 // Fiat–Shamir proof whose statement contains a value the prover picks itself (the decrypted share): if the
 // challenge does not cover every part of statement and commitment, the part left out can be solved for after
@@ -1260,6 +1308,7 @@ func runC13(c *kc.Ctx) {
 					sc.bindFlag = probe
 					c13OffsetDealer(r, sc, rng.Fork(fmt.Sprint("offset", n, t, rep)))
 					c13WeakFS(r, sc, rng.Fork(fmt.Sprint("weakfs", n, t, rep)))
+					c13ObjectHistory(r, sc, rng.Fork(fmt.Sprint("objhist", n, t, rep)))
 					srng := rng.Fork(fmt.Sprint("mut", n, t, rep))
 					stage2 = append(stage2, func() { c13Stage2(r, sc, srng, qh) })
 					stage3 = append(stage3, st3{sc, rng.Fork(fmt.Sprint("rec", n, t, rep)), n <= exhN})
